@@ -1,6 +1,7 @@
 package main
 
 import (
+	"runtime/debug"
 	"bufio"
 	"bytes"
 	"context"
@@ -369,6 +370,8 @@ type AuthService struct {
 	// FailNext > 0: that many calls (Basic or NTLM) are answered with a gRPC error (backend trouble), then the
 	// service recovers
 	FailNext int
+	// Crash: the first panic that escaped the NTLM verifier
+	Crash string
 }
 
 func (a *AuthService) failing() bool {
@@ -407,14 +410,33 @@ func (a *AuthService) Authenticate(ctx context.Context, m *auth.UserPass) (*auth
 	return &auth.AuthResponse{Authenticated: ok && pw != "" && pw == m.Password}, nil
 }
 
-func (a *AuthService) NTLM(ctx context.Context, m *auth.NtlmRequest) (*auth.NtlmResponse, error) {
+func (a *AuthService) NTLM(ctx context.Context, m *auth.NtlmRequest) (resp *auth.NtlmResponse, err error) {
 	if a.failing() {
 		return nil, errors.New("scripted backend failure")
 	}
 	a.mu.Lock()
 	a.Calls = append(a.Calls, "ntlm:"+m.Session)
 	a.mu.Unlock()
+	// a panic that leaves the verifier ends the real authentication service (grpc-go does not recover handler
+	// panics): it is recorded here, the scripted service goes on
+	defer func() {
+		if x := recover(); x != nil {
+			a.mu.Lock()
+			if a.Crash == "" {
+				a.Crash = fmt.Sprintf("%v\n%s", x, debug.Stack())
+			}
+			a.mu.Unlock()
+			resp, err = nil, errors.New("authentication service crashed")
+		}
+	}()
 	return a.ntlm.Authenticate(m)
+}
+
+// Crashed returns the first panic that escaped the NTLM verifier ("" = none).
+func (a *AuthService) Crashed() string {
+	a.mu.Lock()
+	defer a.mu.Unlock()
+	return a.Crash
 }
 
 // StartAuthService serves the scripted auth service on a fresh unix socket.
